@@ -269,7 +269,9 @@ def run(case):
             try:
                 cout = tsc.partition_parallel(pos0.copy(), npart, box, weights=None if w0 is None else w0.copy(), coord=coord, nthread=min(nthread, 16), sort=sort)
                 same = np.array_equal(np.asarray(out[0]), cout[0]) and np.array_equal(np.asarray(out[1]), cout[1]) and (w0 is None or np.array_equal(np.asarray(out[2]), cout[2]))
-                if not same and not (sort and len(set(xs)) < len(xs)):
+                # (both results have passed the oracle; they may still differ where a particle sits within rounding of a stripe
+                #  boundary - fastmath may turn x/w into x*(1/w) in the compiled kernel only - or among equal keys when sorting)
+                if not same and not (sort and len(set(xs)) < len(xs)) and not any(len(stripe_options(x, npart, box, dtype)) > 1 for x in xs):
                     add('conformance:twin-vs-compiled', f'{tag}: twin and compiled results differ')
             except Exception as e:
                 add('compiled:raises:' + type(e).__name__, f'{tag}: {e}')
